@@ -31,7 +31,7 @@ TRUSTED = [
     "the code adds and cancels: means 1e-12 * E|m|, variances 1e-9 * E[|max(v,minvar)| + m^2] (the cancellation in "
     "E[x^2]-E[x]^2 is the implementation's)",
     "float -> integer transfer on one power-of-two scale s per case (means, stds: x*s; impurities, min_variance: x*s^2), exact; "
-    "scale-invariance of the model is theorem C18_scale_equivariant",
+    "that no verdict depends on s is proved: C18_scale_equivariant (model), C18_oracle/corr/same/lcb_scale_invariant (oracles)",
     "joblib threading backend (require='sharedmem') runs every delayed call exactly once; scipy.stats.norm and the global NumPy RNG "
     "(seeded identically for both sides) in the EI/PI/MES metamorphic comparison",
 ]
@@ -138,7 +138,7 @@ def check_predict(case):
     y = np.array(case["y"], dtype=float)
     Xq = np.array(case["Xq"], dtype=float)
     o = case["opts"]
-    sig = dict(cls=o["cls"], splitter=o.get("splitter"), bootstrap=o["bootstrap"])
+    sig = dict(cls=o["cls"])
     with warnings.catch_warnings():
         warnings.simplefilter("ignore")
         f1 = make_forest(case, 1).fit(X, y)
@@ -228,7 +228,7 @@ def check_acq(case):
     Xq = np.array(case["Xq"], dtype=float)
     o = case["opts"]
     kappa = case["kappa"]          # float or "inf"
-    sig = dict(cls=o["cls"], splitter=o.get("splitter"), bootstrap=o["bootstrap"], kappa="inf" if kappa == "inf" else "num")
+    sig = dict(cls=o["cls"])
     with warnings.catch_warnings():
         warnings.simplefilter("ignore")
         f = make_forest(case, o.get("n_jobs", 1)).fit(X, y)
@@ -256,10 +256,12 @@ def check_acq(case):
     minv_i = to_int(minv, 2 * k)
     m = model()
     # the surrogate's outputs that the acquisition receives satisfy the property (so std_ep IS the epistemic part)
-    okb = m.call(F_OK, [EPS_M, EPS_V, minv_i, [[trees[j], [opt_int(a[j], k) for a in (m0, m1, m2)], [opt_int(a[j], k) for a in (st, sa, se)]] for j in range(q)]])
+    arg = [EPS_M, EPS_V, minv_i, [[trees[j], [opt_int(a[j], k) for a in (m0, m1, m2)], [opt_int(a[j], k) for a in (st, sa, se)]] for j in range(q)]]
+    okb = m.call(F_OK, arg)
     if not all(okb):
         j = [bool(b) for b in okb].index(False)
-        return dict(res, ok=False, clause="ok_C18", detail=dict(query=j, means=[float(a[j]) for a in (m0, m1, m2)], stds=[float(a[j]) for a in (st, sa, se)]))
+        bad = first_false(CLAUSES, [bool(b) for b in m.call(F_CLAUSES, arg)[j]])
+        return dict(res, ok=False, clause=bad or "ok_C18", detail=dict(query=j, means=[float(a[j]) for a in (m0, m1, m2)], stds=[float(a[j]) for a in (st, sa, se)]))
     kap = [] if kappa == "inf" else [list(Fraction(float(kappa)).as_integer_ratio())]
     for clause, acq, mu, sd in (("lcbd_uses_epistemic", lcb_d, m2, se), ("lcb_uses_total", lcb_t, m1, st),
                                 ("LCBd_wrapper", w_d, m2, se), ("LCB_wrapper", w_t, m1, st)):
@@ -409,6 +411,6 @@ def shrink(case):
 def streams(tier):
     th = tier == "thorough"
     return [
-        Stream("forest_predict", gen_predict(9000 if th else 700), check_predict, shrink, timeout=120),
-        Stream("acq_d", gen_acq(3000 if th else 250), check_acq, shrink, timeout=120),
+        Stream("forest_predict", gen_predict(10000 if th else 600), check_predict, shrink, timeout=120),
+        Stream("acq_d", gen_acq(3000 if th else 200), check_acq, shrink, timeout=120),
     ]
